@@ -201,14 +201,67 @@ def check_head_setup(chk, prog, env, model):
              n, bad, floor=60)
 
 
+def builder_time_states(prog, env, model):
+    """configurations (claims mask, stored exp offset, stored nbf offset) a builder can be in: closure of jwt_builder_new's state under
+    jwt_builder_time_offset and jwt_builder_enable_iat on representative arguments (the code compares the offsets with 0 only);
+    returned abstracted to (mask, exp > 0, nbf > 0)"""
+    unit = T.VARIANT_UNIT['builder']
+    EXP, NBF, IAT = env.claim['EXP'], env.claim['NBF'], env.claim['IAT']
+
+    class R(Rule):
+        alloc_may_fail = False
+    start = set()
+    it = Interp(prog, unit, model=model, rule=R())
+    for s, rv in it.run('jwt_builder_new', [], State()):
+        if isinstance(rv, Ref):
+            vals = []
+            for f in ('c.claims', 'c.exp', 'c.nbf'):
+                v = it.load(s, rv.loc, f)
+                vals.append(v.v if isinstance(v, Int) else None)
+            start.add(tuple(vals))
+    if not start or any(None in x for x in start):
+        raise AnalysisBroken('jwt_builder_new does not leave concrete claims/exp/nbf (%r)' % (start,))
+    ops = [('jwt_builder_time_offset', [Int(c), Int(sx)]) for c in (EXP, NBF, IAT) for sx in (-7, 0, 7)] + \
+          [('jwt_builder_enable_iat', [Int(e)]) for e in (0, 1)]
+    done, work = set(), list(start)
+    while work:
+        cur = work.pop()
+        if cur in done:
+            continue
+        done.add(cur)
+        if len(done) > 400:
+            raise AnalysisBroken('builder configuration closure does not terminate')
+        for fn, a in ops:
+            it = Interp(prog, unit, model=model, rule=R())
+            st = State()
+            o = ('obj', 'b')
+            st.zero.add(o)
+            for f, v in zip(('c.claims', 'c.exp', 'c.nbf'), cur):
+                st.mem[(o, f)] = Int(v)
+            for s, rv in it.run(fn, [Ref(o)] + a, st):
+                nv = []
+                for f in ('c.claims', 'c.exp', 'c.nbf'):
+                    v = it.load(s, o, f)
+                    nv.append(v.v if isinstance(v, Int) else None)
+                if None in nv:
+                    raise AnalysisBroken('%s leaves a non-concrete builder configuration' % fn)
+                if tuple(nv) not in done:
+                    work.append(tuple(nv))
+    return sorted(set((c & (IAT | NBF | EXP), e > 0, nb > 0) for c, e, nb in done)), len(done)
+
+
 def check_time_claims(chk, prog, env, model):
     unit = T.VARIANT_UNIT['builder']
     prog.func(unit, 'jwt_builder_generate')
     n = 0
     bad = 0
     IAT, NBF, EXP = env.claim['IAT'], env.claim['NBF'], env.claim['EXP']
-    for mask in range(8):
+    reach, nconc = builder_time_states(prog, env, model)
+    chk.coverage['builder_time_states'] = {'concrete_states': nconc, 'abstract': [list(x) for x in reach]}
+    for mask, exp_pos, nbf_pos in [(m_, e_, n_) for m_ in range(8) for e_ in (False, True) for n_ in (False, True)]:
         claims = (IAT if mask & 1 else 0) | (NBF if mask & 2 else 0) | (EXP if mask & 4 else 0)
+        if (claims, exp_pos, nbf_pos) not in reach:
+            continue        # no sequence of builder calls produces this configuration
         sets = []
         copies = []
         narrowed = []
@@ -249,6 +302,8 @@ def check_time_claims(chk, prog, env, model):
         H.set_cb(st, o, True)
         H.set_key(st, o, env, 'none')
         st.mem[(o, 'c.claims')] = Int(claims)
+        st.cons[('mem', o, 'c.exp')] = ((('>', 0),) if exp_pos else (('<=', 0),))
+        st.cons[('mem', o, 'c.nbf')] = ((('>', 0),) if nbf_pos else (('<=', 0),))
         st.mem[(o, 'c.headers')] = Ref(('obj', 'bhdrs'))
         st.mem[(o, 'c.payload')] = Ref(('obj', 'bclms'))
         H.bind_provider(st, 'openssl')
